@@ -988,7 +988,6 @@ var anchorNames = map[string]bool{
 	"config.New":                                         true,
 	"config.ParseFlagsFromFlagSet":                       true,
 	"config.parseBool":                                   true,
-	"config.parseEnvValue":                               true,
 	"config.parseStringList":                             true,
 	"constructor.CheckConstructor":                       true,
 	"ignore.ReadIgnoreAnnotations":                       true,
